@@ -350,10 +350,11 @@ def run(ctx):
 
     # ---- every ordering of small scenarios
     exh = {}
+    big_groups = []
     for name, node, um, events in small_scenarios(ctx.tier):
         roots, cnt = exhaustive(runner, name, node, um, events, report)
         exh[name] = dict(events=len(events), nodes=cnt)
-        groups.append((node, um, roots))
+        big_groups += [(node, um, [r]) for r in roots]      # one correspondence file per first event
     ctx.coverage["every_ordering_scenarios"] = exh
     ctx.log(f"implementation runs done: {n_seq} random sequences, orderings {exh}, oracle failures {len(violations)}")
 
@@ -390,6 +391,8 @@ def run(ctx):
     shard = 10
     for i in range(0, len(groups), shard):
         files[f"cases_{i // shard}.v"] = groups[i:i + shard]
+    for i, g in enumerate(big_groups):
+        files[f"cases_ord_{i}.v"] = [g]
     for fn, g in files.items():
         ei.write_case_file(os.path.join(ctx.build, fn), g)
     results = ctx.run_case_files(list(files), timeout=1500, jobs=14)
@@ -405,7 +408,7 @@ def run(ctx):
         for nid in fl[0]:
             mismatches.append((fn, runner.idmap[nid]))
     ctx.coverage["model_impl_mismatches"] = len(mismatches)
-    ctx.coverage["traces_validated_against_impl"] = len(groups)
+    ctx.coverage["traces_validated_against_impl"] = len(groups) + sum(v["nodes"] for v in exh.values())
     if mismatches:
         fn, evs = min(mismatches, key=lambda x: len(x[1]))
         ctx.broken.append(f"correspondence Epr.step vs Executor: {len(mismatches)} event sequences differ, shortest ({fn}): "
